@@ -39,6 +39,8 @@ GNext ==
   /\ \/ Open /\ UNCHANGED <<calls, replies>>
      \/ \E k \in KS : Read(k) /\ calls' = Append(calls, [op |-> "read", k |-> k]) /\ UNCHANGED replies
      \/ Seek0 /\ calls' = Append(calls, [op |-> "seek0", k |-> 0]) /\ UNCHANGED replies
+     \/ Tell /\ calls' = Append(calls, [op |-> "tell", k |-> 0]) /\ UNCHANGED replies
+     \/ SeekBad /\ calls' = Append(calls, [op |-> "seekbad", k |-> 0]) /\ UNCHANGED replies
      \/ Stop /\ UNCHANGED <<calls, replies>>
      \/ GiveUp /\ UNCHANGED <<calls, replies>>
      \/ \E kind \in {"neterr", "http500", "http404"} :
